@@ -251,6 +251,12 @@ func runC38(c *Ctx) []Obligation {
 		lm, pm := `^\(\*codec\.LegacyAmino\)\.Marshal`+v+`\(`, `^\(\*codec\.ProtoCodec\)\.Marshal`+v+`\(`
 		lu, pu := `^\(\*codec\.LegacyAmino\)\.Unmarshal`+v+`\(`, `^\(\*codec\.ProtoCodec\)\.Unmarshal`+v+`\(`
 		rows = append(rows,
+			Row{Prop: P, ID: "switch.marshal." + v + ".same-framing", Fn: m,
+				Target: CallTo(`^\(\*codec\.(LegacyAmino|ProtoCodec)\)\.(Unm|M)arshal`).Except(`^\(\*codec\.(LegacyAmino|ProtoCodec)\)\.Marshal` + v + `\(`), Why: "every codec the switch delegates to is used in the same framing (bare vs length-prefixed) as the switch function itself"},
+			Row{Prop: P, ID: "switch.unmarshal." + v + ".same-framing", Fn: u,
+				Target: CallTo(`^\(\*codec\.(LegacyAmino|ProtoCodec)\)\.(Unm|M)arshal`).Except(`^\(\*codec\.(LegacyAmino|ProtoCodec)\)\.Unmarshal` + v + `\(`), Why: "every codec the switch delegates to reads the framing the matching writer produced, on every branch including the upgrade-height fallback"},
+			Row{Prop: P, ID: "switch.unmarshal." + v + ".upgrade-height-falls-back-to-proto", Fn: u, Assume: []Lit{T(okP), T(after), T(`^eq\((\d+|codec\.UpgradeCodecHeight), height\)$`), T(`^nonnil\(\(\*codec\.LegacyAmino\)\.Unmarshal` + v + `\(cdc\.legacyCdc, bz, ptr\)\)$`)},
+				Barrier: []string{pu}, Target: TargetAnyReturn(), Why: "on the upgrade block itself (writers already use proto) a failed amino read is retried in proto"},
 			Row{Prop: P, ID: "switch.marshal." + v + ".after-uses-proto", Fn: m, Assume: []Lit{T(okO), T(after)}, Target: CallTo(lm), TargetMustExist: true, Why: "after the codec upgrade nothing is written in amino"},
 			Row{Prop: P, ID: "switch.marshal." + v + ".after-encodes", Fn: m, Assume: []Lit{T(okO), T(after)}, Barrier: []string{pm}, Target: TargetAnyReturn(), Why: "after the codec upgrade objects are written in proto"},
 			Row{Prop: P, ID: "switch.marshal." + v + ".before-uses-amino", Fn: m, Assume: []Lit{F(after)}, Target: CallTo(pm), TargetMustExist: true, Why: "before the codec upgrade nothing is written in proto"},
